@@ -627,8 +627,13 @@ fn c15_headers(a: &mut Acc) {
     for (version, hlen) in [(2u32, 0u32), (3, 0), (3, 104), (3, 120), (3, 136)] {
         for cb in [9u32, 12, 16, 21] {
             for ext in [false, true] {
-                for name_len in [0usize, 1, 7, 8, 200, 1023] {
-                    if cb == 9 && name_len > 200 {
+                // 392: with 512-byte clusters, a 112-byte header and no extensions the name ends
+                // exactly with the first cluster
+                for name_len in [0usize, 1, 7, 8, 200, 392, 1023] {
+                    if cb == 9 && name_len > 200 && !(name_len == 392 && !ext && (hlen == 0 && version == 3)) {
+                        continue;
+                    }
+                    if cb != 9 && name_len == 392 {
                         continue;
                     }
                     a.evals += 1;
